@@ -747,10 +747,48 @@ def _model_history_body(ctx, rid, w, ws, mm, calls, show, errs):
                 bad = f"sixth call, with a signal patch: the measurement's settings for `sig_only` -- a parameter the patch brings into the model -- do not reach Model (parameter settings handed over: {names_}); the patched-in parameter silently gets its defaults"
             elif show(ws.attrs.get("__payload__")) != payload0:
                 bad = "sixth call, with a signal patch: the patch was written into the workspace itself"
+            if not bad:
+                # a patch that adds a channel under a name the workspace already uses: the workspace hands Model what the patched document
+                # says -- BOTH entries, in document order -- so that the model's own duplicate-name check decides; nothing on the way
+                # may merge, key or drop entries by name
+                twin = {"name": ws.attrs["__payload__"]["channels"][0]["name"], "samples": [{"name": "bkg", "data": [Poly.atom("t0")], "modifiers": []}]}
+
+                def json_patch2(a, k):
+                    def apply(a2, k2):
+                        doc = a2[0]
+                        tgt = doc if k2.get("in_place") is True else {k_: _deep(v_) for k_, v_ in doc.items()}
+                        tgt["channels"].append(_deep(twin))
+                        return tgt
+                    return Obj("JsonPatch", {"apply": PyFunc(apply, "apply")}, closed=True)
+
+                w.base["JsonPatch"] = json_patch2
+                w.ext = None
+                n0 = len(calls)
+                w.call_method(ws, "model", [], {"patches": [Obj("patch adding a channel under a used name")]})
+                w.base.pop("JsonPatch", None)
+                w.ext = None
+                mspec, mkw = calls[-1] if len(calls) == n0 + 1 else ({}, {})
+                got_ = [(c_.get("name"), show(c_["samples"][0]["data"])) for c_ in (mspec.get("channels") or [])] if isinstance(mspec, dict) else None
+                want_ = [(twin["name"], payload0["channels"][0]["samples"][0]["data"]), (twin["name"], ["t0"])]
+                if got_ != want_:
+                    bad = f"seventh call, with a patch that adds a second channel under a name already used: Model receives the channels {got_}, not the two entries of the patched document {want_}; its duplicate-name check never sees the collision and the inconsistent specification is accepted"
+            if not bad:
+                # ... and the same when the collision is in the workspace document itself (a workspace is not required to be a valid model)
+                doc2 = _deep(ws.attrs["__payload__"])
+                doc2 = {k_: v_ for k_, v_ in doc2.items()}
+                doc2["channels"] = [_deep(doc2["channels"][0]), _deep(twin)]
+                doc2["observations"] = [_deep(doc2["observations"][0])]
+                ws2 = w.new(ws.cls, [doc2], {"validate": False})
+                n0 = len(calls)
+                w.call_method(ws2, "model", [], {})
+                mspec, mkw = calls[-1] if len(calls) == n0 + 1 else ({}, {})
+                got_ = [(c_.get("name"), show(c_["samples"][0]["data"])) for c_ in (mspec.get("channels") or [])] if isinstance(mspec, dict) else None
+                if got_ != want_:
+                    bad = f"a workspace whose document lists two channels under one name: Model receives the channels {got_}, not the two entries of the document {want_}; its duplicate-name check never sees the collision and the inconsistent specification is accepted as a model without the dropped channel"
         if bad:
             ctx.violated(rid, mm, "Workspace.model() history on one workspace object", bad, expected="every call: Model(channels, measurement parameters, the POI this call asks for); workspace payload unchanged", found=bad)
         else:
-            ctx.holds(rid, f"{WS}::Workspace.model [calls on one object: default POI, override, default, POI-less, default, a signal patch]", "each call builds from this call's options and patches, with the measurement's settings for patched-in parameters; the workspace payload is unchanged")
+            ctx.holds(rid, f"{WS}::Workspace.model [calls on one object: default POI, override, default, POI-less, default, a signal patch, a patch adding a channel under a used name]", "each call builds from this call's options and patches, with the measurement's settings for patched-in parameters; the workspace payload is unchanged")
     except RaisedInFragment as e:
         ctx.violated(rid, mm, "Workspace.model() history", f"raises {e.exc_name} on a well-formed workspace")
     except errs as e:
